@@ -223,6 +223,67 @@ def _v2000_extras(rec, picks, header):
     return '\n'.join(out)
 
 
+def _rxn_member_count(rec, fmt):
+    head = rec.split('\n$DTYPE', 1)[0]
+    if fmt == 'rdf':
+        return head.count('\n$MOL\n')
+    return head.count('\nM  V30 BEGIN CTAB')
+
+
+_EMPTY_V2000 = ['', '', '', '  0  0  0  0  0  0            999 V2000', 'M  END']
+_EMPTY_V3000 = ['M  V30 BEGIN CTAB', 'M  V30 COUNTS 0 0 0 0 0', 'M  V30 BEGIN ATOM', 'M  V30 END ATOM', 'M  V30 BEGIN BOND',
+                'M  V30 END BOND', 'M  V30 END CTAB']
+
+
+def _rxn_unsupported_member(rec, fmt, pick, empty=False):
+    """One member of a reaction record gets an atom chython cannot represent (V2000 query atom `A`, V3000 `R#`): with the
+    default `ignore=True` the reader drops that member and must keep every other member in its role."""
+    if not rec.startswith('$RFMT'):
+        return rec, None
+    n = _rxn_member_count(rec, fmt)
+    if n < 2:
+        return rec, None
+    k = pick % n
+    cut = rec.find('\n$DTYPE')
+    head, tail = (rec, '') if cut < 0 else (rec[:cut], rec[cut:])
+    lines = head.split('\n')
+    seen = -1
+    for i, ln in enumerate(lines):
+        if fmt == 'rdf' and ln == '$MOL':
+            seen += 1
+            if seen == k and empty:
+                j = i + 1
+                while j < len(lines) and lines[j] != '$MOL' and not (j == len(lines) - 1 and lines[j] == ''):
+                    j += 1
+                return '\n'.join(lines[:i + 1] + _EMPTY_V2000 + lines[j:]) + tail, k
+            if seen == k:
+                j = i + 5            # $MOL, 3 header lines, counts line, first atom line
+                if j < len(lines) and lines[i + 4].endswith('V2000') and int(lines[i + 4][:3] or 0) > 0:
+                    lines[j] = lines[j][:31] + 'A  ' + lines[j][34:]
+                    return '\n'.join(lines) + tail, k
+                return rec, None
+        if fmt == 'erdf' and ln.startswith('M  V30 BEGIN CTAB'):
+            seen += 1
+            if seen == k and empty:
+                j = i
+                while j < len(lines) and not lines[j].startswith('M  V30 END CTAB'):
+                    j += 1
+                return '\n'.join(lines[:i] + _EMPTY_V3000 + lines[j + 1:]) + tail, k
+            if seen == k:
+                for j in range(i + 1, len(lines)):
+                    if lines[j].startswith('M  V30 BEGIN ATOM'):
+                        t = lines[j + 1].split(' ')
+                        # M, '', V30, index, type, ...
+                        if lines[j + 1].startswith('M  V30 ') and len(t) > 4 and not lines[j + 1].startswith('M  V30 END'):
+                            t[4] = 'R#'
+                            lines[j + 1] = ' '.join(t)
+                            return '\n'.join(lines) + tail, k
+                        return rec, None
+                    if lines[j].startswith('M  V30 END CTAB'):
+                        return rec, None
+    return rec, None
+
+
 def _v2000_props(rec, per_line):
     """Rewrite every V2000 molblock of a record the way most other programs write it: charges as `M  CHG` lines (atom block
     column zeroed) and the `M  CHG` / `M  ISO` / `M  RAD` entries grouped up to 8 per line."""
@@ -339,6 +400,10 @@ def apply_foreign(fmt, text, extents, spec):
             rec = _mrv_compact(rec)
         if kind == 'v2000props' and fmt in ('sdf', 'rdf'):
             rec = _v2000_props(rec, spec.get('per_line', 8))
+        if kind == 'rxn_unsupported_member' and fmt in ('rdf', 'erdf'):
+            rec, k = _rxn_unsupported_member(rec, fmt, spec.get('member', 0), bool(spec.get('empty')))
+            if k is not None:
+                spec.setdefault('_dropped', {})[len(new_ext)] = k
         if kind == 'v2000extras' and fmt in ('sdf', 'rdf'):
             rec = _v2000_extras(rec, spec.get('picks', [0]), spec.get('header', 0))
         pieces.append(rec)
@@ -724,11 +789,47 @@ def execute(trace, probes=None, scratch=None):
     return None
 
 
+_NO_LAYOUT = {}     # id(molecule) -> molecule: records not born from a file with a real 2D layout (kept alive for the run)
+
+
+def _build(spec):
+    """build_record + book-keeping of which molecules carry coordinates that mean something."""
+    from chython.containers import ReactionContainer
+    r = build_record(spec)
+    if isinstance(r, ReactionContainer):
+        for role, ms in (('r', r.reactants), ('p', r.products), ('a', r.reagents)):
+            for m, ms_spec in zip(ms, spec[role]):
+                if ms_spec['k'] != 'file':
+                    _NO_LAYOUT[id(m)] = m
+    elif spec['k'] in ('smi', 'join'):
+        _NO_LAYOUT[id(r)] = r
+    return r
+
+
+def expected_view(r, fmt, calc_ct):
+    """View a record must read back as.  With `calc_cis_trans=True` the reader derives cis/trans labels from the coordinates
+    in the file; for records born from SMILES the coordinates are zeros plus a few seeded extreme values (a number-format
+    workload, not a layout), rounded by the writer - what they imply is not a property of the record, so configuration is
+    compared only for records that come with a real layout (the repository's files)."""
+    from chython.containers import ReactionContainer
+    v = record_view(r, fmt)
+    if calc_ct:
+        if isinstance(r, ReactionContainer):
+            for role, ms in (('r', r.reactants), ('p', r.products), ('a', r.reagents)):
+                for mv, m in zip(v[role], ms):
+                    if id(m) in _NO_LAYOUT:
+                        mv['stereo'] = None
+        elif id(r) in _NO_LAYOUT:
+            v['stereo'] = None
+    return v
+
+
 def _build_all(trace, probes):
     recs, specs = [], []
+    _NO_LAYOUT.clear()
     for spec in trace['records']:
         try:
-            r = build_record(spec)
+            r = _build(spec)
         except Unbuildable:
             probes['unbuildable'] += 1
             continue
@@ -764,11 +865,22 @@ def _execute(trace, probes, scratch):
     records = [records[i] for i in kept]
     if not records:
         return
-    expected = [record_view(r, fmt) for r in records]
+    expected = [expected_view(r, fmt, bool(trace.get('calc_ct'))) for r in records]
     foreign = trace.get('foreign')
     if foreign:
+        foreign = dict(foreign)
+        foreign.pop('_dropped', None)
         text, extents = apply_foreign(fmt, text, extents, foreign)
         probes['foreign:' + foreign['kind']] += 1
+        for ri, k in (foreign.get('_dropped') or {}).items():
+            # the member the reader has to drop (file order: reactants, products, agents); everything else stays in its role
+            e = expected[ri]
+            for role in 'rpa':
+                if k < len(e[role]):
+                    e[role] = e[role][:k] + e[role][k + 1:]
+                    break
+                k -= len(e[role])
+            probes['rxn_member_made_unsupported'] += 1
     ref = text.encode('utf-8')
     probes['records_written'] += len(records)
     probes['fmt:' + fmt] += 1
@@ -822,7 +934,7 @@ def _execute(trace, probes, scratch):
         arecs = []
         for spec in trace['append']:
             try:
-                r = build_record(spec)
+                r = _build(spec)
             except Unbuildable:
                 continue
             from chython.containers import ReactionContainer
@@ -867,7 +979,7 @@ def _execute(trace, probes, scratch):
                 a, b = ext2[0]
                 img._mark(a, a + 1)
                 probes['append_onto_torn_tail'] += 1
-            expected += [record_view(r, fmt) for r in appended]
+            expected += [expected_view(r, fmt, bool(trace.get('calc_ct'))) for r in appended]
             if hasattr(img, 'torn_at') and not torn:
                 del img.torn_at
             elif torn and fmt != 'mrv':
@@ -1261,11 +1373,11 @@ def generate(seed):
     trace['write'] = wp
     mode = cfg['mode']
     if mode in ('clean', 'indexed') and s.random() < (0.6 if mode == 'indexed' else 0.3):
-        k = s.choice((['empty_record'] * 4 if mode == 'indexed' else []) + ['v3000wrap', 'v3000wrap', 'no_final_delimiter', 'crlf', 'empty_record', 'empty_record', 'v2000props', 'v2000props', 'rireg', 'v2000extras', 'v2000extras'])
+        k = s.choice((['empty_record'] * 4 if mode == 'indexed' else []) + ['v3000wrap', 'v3000wrap', 'no_final_delimiter', 'crlf', 'empty_record', 'empty_record', 'v2000props', 'v2000props', 'rireg', 'v2000extras', 'v2000extras', 'rxn_unsupported_member', 'rxn_unsupported_member'])
         if fmt == 'mrv':
             k = 'mrv_compact'
         if (k == 'v3000wrap' and fmt in ('esdf', 'erdf')) or (k == 'empty_record' and fmt != 'mrv') or \
-                (k in ('v2000props', 'v2000extras') and fmt in ('sdf', 'rdf')) or (k == 'rireg' and fmt in ('rdf', 'erdf')) or \
+                (k in ('v2000props', 'v2000extras') and fmt in ('sdf', 'rdf')) or (k in ('rireg', 'rxn_unsupported_member') and fmt in ('rdf', 'erdf')) or \
                 (k == 'mrv_compact' and fmt == 'mrv') or \
                 (k == 'no_final_delimiter' and fmt in ('sdf', 'esdf') and mode == 'clean') or \
                 (k == 'crlf' and fmt != 'mrv'):
@@ -1274,6 +1386,9 @@ def generate(seed):
             if k == 'v2000extras':
                 trace['foreign']['picks'] = [s.randrange(64) for _ in range(s.choice([0, 1, 1, 2, 3]))]
                 trace['foreign']['header'] = s.randrange(16)
+            if k == 'rxn_unsupported_member':
+                trace['foreign']['member'] = s.randrange(64)
+                trace['foreign']['empty'] = s.random() < 0.4
     if mode == 'clean' and fmt != 'mrv' and s.random() < 0.3 and not trace.get('foreign'):
         trace['append'] = [gen_record_spec(w, cfg, FORMATS[fmt]['rxn']) for _ in range(s.choice([1, 2]))]
     reads = []
